@@ -405,6 +405,9 @@ def main():
     except RuntimeError as e:
         print(f"INFRASTRUCTURE: {e}")
         sys.exit(2)
+    except Exception as e:  # noqa: BLE001  -- a bug in the harness is never a verdict
+        print(f"INFRASTRUCTURE: harness error {type(e).__name__}: {e}\n{traceback.format_exc()}")
+        sys.exit(2)
 
 
 if __name__ == "__main__":
